@@ -96,11 +96,11 @@ def acctinfo_ok(accounts, dtacctup="20200101000000.000[+0:UTC]", groups=1):
     for a in accounts:
         k = a["kind"]
         if k == "bank":
-            x = ("<BANKACCTINFO><BANKACCTFROM><BANKID>%s</BANKID><ACCTID>%s</ACCTID><ACCTTYPE>%s</ACCTTYPE></BANKACCTFROM><SUPTXDL>Y</SUPTXDL><XFERSRC>N</XFERSRC>"
-                 "<XFERDEST>N</XFERDEST><SVCSTATUS>%s</SVCSTATUS></BANKACCTINFO>" % (a["bankid"], a["acctid"], a["accttype"], a["status"]))
+            x = ("<BANKACCTINFO><BANKACCTFROM><BANKID>%s</BANKID><ACCTID>%s</ACCTID><ACCTTYPE>%s</ACCTTYPE></BANKACCTFROM><SUPTXDL>%s</SUPTXDL><XFERSRC>N</XFERSRC>"
+                 "<XFERDEST>N</XFERDEST><SVCSTATUS>%s</SVCSTATUS></BANKACCTINFO>" % (a["bankid"], a["acctid"], a["accttype"], a.get("suptxdl", "Y"), a["status"]))
         elif k == "cc":
-            x = ("<CCACCTINFO><CCACCTFROM><ACCTID>%s</ACCTID></CCACCTFROM><SUPTXDL>Y</SUPTXDL><XFERSRC>N</XFERSRC><XFERDEST>N</XFERDEST><SVCSTATUS>%s</SVCSTATUS></CCACCTINFO>"
-                 % (a["acctid"], a["status"]))
+            x = ("<CCACCTINFO><CCACCTFROM><ACCTID>%s</ACCTID></CCACCTFROM><SUPTXDL>%s</SUPTXDL><XFERSRC>N</XFERSRC><XFERDEST>N</XFERDEST><SVCSTATUS>%s</SVCSTATUS></CCACCTINFO>"
+                 % (a["acctid"], a.get("suptxdl", "Y"), a["status"]))
         elif k == "inv":
             x = ("<INVACCTINFO><INVACCTFROM><BROKERID>%s</BROKERID><ACCTID>%s</ACCTID></INVACCTFROM><USPRODUCTTYPE>OTHER</USPRODUCTTYPE><CHECKING>N</CHECKING>"
                  "<SVCSTATUS>%s</SVCSTATUS></INVACCTINFO>" % (a["brokerid"], a["acctid"], a["status"]))
